@@ -322,10 +322,12 @@ class Checker:
                     keys = set(G.key_of(a) for a in p[2].atoms)
                     agree = expected_density(p[2], m[2], keys, self.tbl)[0]
             elif m[0] == "OK" or p[0] == "OK":
-                if m[0] == "FAIL" and p[0] == "OK" and G.maybe_mixture(s):
-                    # read by a mixture alternative of the top-level grammar: the extended model decides
+                if m[0] in ("FAIL", "ABORT") and p[0] == "OK" and G.maybe_mixture(s):
+                    # read by a mixture alternative of the top-level grammar (tried before the compound
+                    # alternative since b19588f, so also where the compound reading aborts on the unit
+                    # `L`): the extended model `parseTop` decides, strictly
                     self.mixture_escapes += 1
-                    M.check_mixtures(run, self.tname, self.ref, self.tbl, self.prefix, [s], strict=False)
+                    M.check_mixtures(run, self.tname, self.ref, self.tbl, self.prefix, [s], strict=True)
                 elif m[0] == "OK" and m[2] is not None and m[2][0] == "n" and p[1] == "ZeroDivisionError" \
                         and total_count(m[1]) == 0:
                     # '@…n' on a formula whose counts are all zero: natural_mass_ratio divides by the
